@@ -177,6 +177,10 @@ type C01StaticCase struct {
 	// DoneEarly: a watcher calls Done right after its last update while other
 	// watchers still have updates to come; its last value stays in the stack.
 	DoneEarly bool `json:"done_early,omitempty"`
+	// OverwriteDefaults: right after Config returned, the caller overwrites its
+	// own defaults struct in place (maps gain and lose keys, slices and pointees
+	// are rewritten); "the caller's default" stays what it was at Config time
+	OverwriteDefaults bool `json:"overwrite_defaults,omitempty"`
 }
 
 // assignInPlace makes dst deeply equal to src while keeping dst's own
@@ -242,6 +246,7 @@ func genC01Static(t *rapid.T) C01StaticCase {
 	}
 	c.InPlace = rapid.IntRange(0, 2).Draw(t, "in_place") == 0
 	c.DoneEarly = rapid.IntRange(0, 2).Draw(t, "done_early") == 0
+	c.OverwriteDefaults = rapid.IntRange(0, 2).Draw(t, "overwrite_defaults") == 0
 	if c.Restacks > 0 {
 		any := false
 		for _, w := range c.Watch {
@@ -326,6 +331,12 @@ func runStatic[T any](c C01StaticCase) vrt.Verdict {
 	}
 	if msg := check("initial stack"); msg != "" {
 		return vrt.Violationf("%s", msg)
+	}
+	if c.OverwriteDefaults {
+		shape.Scribble(defaults.Elem())
+		if msg := check("after the caller overwrote its own defaults struct in place (no source set these leaves; the default is what Config was given)"); msg != "" {
+			return vrt.KeyedViolationf("defaults-overwritten", "%s", msg)
+		}
 	}
 	staticAfterWatcher := false
 	persist := map[*fake.Watcher]reflect.Value{}
@@ -431,7 +442,7 @@ func runStatic[T any](c C01StaticCase) vrt.Verdict {
 		}
 		finishIdle(i)
 	}
-	if df := shape.Diff(b.Defaults(d).Elem(), defaults.Elem()); df != "" {
+	if df := shape.Diff(b.Defaults(d).Elem(), defaults.Elem()); df != "" && !c.OverwriteDefaults {
 		return vrt.Violationf("the caller's defaults were modified at %s", df)
 	}
 	setCount := map[string]int{}
@@ -462,7 +473,7 @@ func runStatic[T any](c C01StaticCase) vrt.Verdict {
 func TestC01Static(t *testing.T) {
 	vrt.Check(t, vrt.Prop[C01StaticCase]{
 		ID: "C01", Name: "static",
-		Rule: "seven compiler-made config types (one with arrays, slices and maps of nil-able elements in which values leave some elements / map values nil; two of them differ only in a nested struct type called Window: a package-level text-unmarshalable one and a function-local plain one with the same printed name; scalars, durations, time.Time and pointer to it, net.IP, arrays, named scalar / slice / map / text types, user pointers incl. **int, sets, nested / pointer / embedded structs incl. an embedded pointer, and unexported / dials:\"-\" / chan / func fields between retained ones) stacked through the public path Config[T] -> View from 0..6 sources, static and watching ones interleaved in any argument order, followed by later updates of any of the watchers (in a third of the cases every watcher rewrites ONE long-lived value in place and re-reports it; in a third, watchers call Done after their last update while others still report); defaults and layers from per-(layer,leaf) seeds; " +
+		Rule: "seven compiler-made config types (one with arrays, slices and maps of nil-able elements in which values leave some elements / map values nil; two of them differ only in a nested struct type called Window: a package-level text-unmarshalable one and a function-local plain one with the same printed name; scalars, durations, time.Time and pointer to it, net.IP, arrays, named scalar / slice / map / text types, user pointers incl. **int, sets, nested / pointer / embedded structs incl. an embedded pointer, and unexported / dials:\"-\" / chan / func fields between retained ones) stacked through the public path Config[T] -> View from 0..6 sources, static and watching ones interleaved in any argument order, followed by later updates of any of the watchers (in a third of the cases every watcher rewrites ONE long-lived value in place and re-reports it; in a third, watchers call Done after their last update while others still report; in a third, the caller overwrites its own defaults struct in place right after Config); defaults and layers from per-(layer,leaf) seeds; " +
 			"oracle: the same pure reference model as C01/reflect, leaf by leaf by field name; non-trivial = >=2 static layers with a leaf set by >=2 of them; distinct = distinct case JSON",
 		Assumptions: []string{"a watcher update replaces that source's whole slot (documented re-stack semantics)"},
 		Gen:         genC01Static,
